@@ -1,13 +1,13 @@
-SPECIFICATION Spec
+SPECIFICATION FairSpec
 CONSTANTS
   Agents = {"a1", "a2"}
   Seeders = {"s1"}
   Corrupters = {"x1"}
   NPs = {2}
-  Maxcs <- MaxcOne
+  Maxcs <- MaxcSmall
   Pipes = {1}
   MayLeave = {"a2"}
   Verify = TRUE
-INVARIANT Inv
-PROPERTY Monotone
+INVARIANT TypeOK
+PROPERTY Converges
 CHECK_DEADLOCK FALSE
